@@ -375,10 +375,8 @@ impl Drv for DBatchSort {
     }
     fn predict_batch(&mut self, b: &[(u64, Vec<Det>)]) -> Vec<(u64, Vec<Rec>)> {
         let (mut req, res) = PredictionBatchRequest::<(Universal2DBox, Option<i64>)>::new();
-        for (s, dets) in b {
-            for d in dets {
-                req.add(*s, (d.bbox.clone(), d.cid));
-            }
+        for (s, d) in add_order(b) {
+            req.add(s, (d.bbox.clone(), d.cid));
         }
         self.t.predict(req);
         let mut out = vec![];
@@ -472,10 +470,8 @@ impl Drv for DBatchVisual {
     }
     fn predict_batch(&mut self, b: &[(u64, Vec<Det>)]) -> Vec<(u64, Vec<Rec>)> {
         let (mut req, res) = PredictionBatchRequest::<VisualSortObservation>::new();
-        for (s, dets) in b {
-            for d in dets {
-                req.add(*s, vis_obs(d));
-            }
+        for (s, d) in add_order(b) {
+            req.add(s, vis_obs(d));
         }
         self.t.predict(req);
         let mut out = vec![];
@@ -498,4 +494,29 @@ impl Drv for DBatchVisual {
     fn content(&self, wasted: bool) -> Vec<TrackView> {
         visual_content!(self, wasted)
     }
+}
+
+/// The order in which the detections of a batch are added to the request: a request is a map scene -> detections (in the
+/// order given per scene), so the order of `add` calls *across* scenes carries no meaning (C04).  Batches with an odd number
+/// of detections are added round-robin over the scenes, the others scene by scene; the order within a scene is kept.
+fn add_order(b: &[(u64, Vec<Det>)]) -> Vec<(u64, &Det)> {
+    let total: usize = b.iter().map(|(_, d)| d.len()).sum();
+    let mut out = Vec::with_capacity(total);
+    if total % 2 == 1 {
+        let longest = b.iter().map(|(_, d)| d.len()).max().unwrap_or(0);
+        for i in 0..longest {
+            for (s, dets) in b {
+                if let Some(d) = dets.get(i) {
+                    out.push((*s, d));
+                }
+            }
+        }
+    } else {
+        for (s, dets) in b {
+            for d in dets {
+                out.push((*s, d));
+            }
+        }
+    }
+    out
 }
